@@ -14,7 +14,7 @@ ENCODED = ['Emitter (every expect_* state, need_more_events/need_events, check_s
            'Reader, Scanner, Parser', 'through yaml.emit(events, stream, **options) and yaml.parse(text)']
 BOUNDS = {'quick': 'one scalar event (value: one free character over all code points, or 2 characters of a 34-character class alphabet) x requested style in 6 x '
                    'implicit pair in 4 x anchor x tag kind in 7 (incl. a URI with one free character, incl. non-ASCII) x 6 skeletons x document directives '
-                   '(version, %TAG with a free prefix character) x canonical / allow_unicode / width; ill-formed streams of <=4 events over 10 kinds; '
+                   '(version, %TAG with a free prefix character) x canonical / allow_unicode / width; ill-formed streams of <=4 events over 14 kinds (4 ill-formed in themselves); '
                    'prepare_* helpers on strings of len<=3',
           'thorough': 'value of 2 free characters; ill-formed streams of <=5 events; prepare_* on len<=4'}
 OUTSIDE = 'CEmitter / CParser; event streams larger than the skeletons'
@@ -254,7 +254,9 @@ def multidoc(n: int, r0: int, r1: int, r2: int, v0: bool, v1: bool, v2: bool, t0
     return 'ok'
 
 
-KINDS = ['StreamStart', 'StreamEnd', 'DocumentStart', 'DocumentEnd', 'Scalar', 'Alias', 'SequenceStart', 'SequenceEnd', 'MappingStart', 'MappingEnd']
+KINDS = ['StreamStart', 'StreamEnd', 'DocumentStart', 'DocumentEnd', 'Scalar', 'Alias', 'SequenceStart', 'SequenceEnd', 'MappingStart', 'MappingEnd',
+         # events that are ill-formed in themselves: every one must end in an EmitterError, wherever it stands
+         'AliasNoAnchor', 'DocStartV2', 'ScalarNoTag', 'SeqBadAnchor']
 
 
 def _mk_event(k):
@@ -263,6 +265,14 @@ def _mk_event(k):
         return ScalarEvent(None, None, (True, False), 'v')
     if name == 'Alias':
         return AliasEvent('a')
+    if name == 'AliasNoAnchor':
+        return AliasEvent(None)
+    if name == 'DocStartV2':
+        return DocumentStartEvent(version=(2, 0))
+    if name == 'ScalarNoTag':
+        return ScalarEvent(None, None, (False, False), 'v')
+    if name == 'SeqBadAnchor':
+        return SequenceStartEvent('a b', None, True)
     if name == 'SequenceStart':
         return SequenceStartEvent(None, None, True)
     if name == 'MappingStart':
@@ -443,8 +453,8 @@ def jobs(tier):
     IN = 4 if q else 5
     for k in range(10):
         js.append(Job('illformed/first=%s' % KINDS[k], illformed,
-                      [lambda n, k0, k1, k2, k3, k4, _k=k: 1 <= n <= IN and k0 == _k and 0 <= k1 <= 9 and 0 <= k2 <= 9 and 0 <= k3 <= 9 and 0 <= k4 <= (9 if IN == 5 else 0)],
-                      budget=200 if q else 1500, bounds='event sequences of len<=%d over 10 kinds, first %s' % (IN, KINDS[k])))
+                      [lambda n, k0, k1, k2, k3, k4, _k=k: 1 <= n <= IN and k0 == _k and 0 <= k1 <= 13 and 0 <= k2 <= 13 and 0 <= k3 <= 13 and 0 <= k4 <= (13 if IN == 5 else 0)],
+                      budget=200 if q else 1500, bounds='event sequences of len<=%d over 14 kinds (4 of them events that are ill-formed in themselves), first %s' % (IN, KINDS[k])))
     RL = 2 if q else 3
     for w, name in enumerate(['prepare_tag', 'prepare_tag_prefix', 'prepare_tag_handle', 'prepare_anchor']):
         js.append(Job('prepare/' + name, prepare, [lambda which, x, _w=w: which == _w and len(x) <= RL and all(_nosur(ch) for ch in x)], budget=150 if q else 1500,
